@@ -25,7 +25,7 @@ def run(ck):
     # the verdict is a function of (rules, category text, type): nothing may identify a category by the address of its name (a memo keyed by the pointer
     # returns the verdict of whatever name lived at that address before)
     from rules.c03 import no_pointer_identity
-    no_pointer_identity(ck, "C15-O9")
+    no_pointer_identity(ck, "C15-O9", scope=("CategoryFilter",))
     from rules.c19 import share_ini_obligation
     share_ini_obligation(ck, "C15-O8", "ini|text|filter_rules", "configure(settings): the value of filter_rules is the rule list the CategoryFilter is built from, character for character (a ':' belongs to a category name)")
     ck.rule("C15-O1", "category text of a rule: captured -> QRegularExpression::escape -> replace('\\\\*', '.*') -> '^' + text + '$', in this order and nothing else")
